@@ -144,3 +144,103 @@ def simulated_mpi(n):
                 sys.modules.pop(k, None)
             else:
                 sys.modules[k] = v
+
+
+# ---------------------------------------------------------------------------
+# samplers
+
+class Captured(Exception):
+    """raised by the sampler doubles once the callbacks have been recorded"""
+
+
+class SamplerCapture:
+    def __init__(self):
+        self.loglike = None
+        self.prior = None
+        self.ndim = None
+        self.kwargs = None
+        self.which = None
+
+
+_STATE = {'cap': None, 'result': None, 'installed': False}
+
+
+def _finish(which):
+    cap = _STATE['cap']
+    cap.which = which
+    if _STATE['result'] is None:
+        raise Captured(which)
+    return _STATE['result'](which, cap)
+
+
+def _install_once():
+    """the doubles are process-wide singletons (taurex.optimizer.polychord binds the
+    module objects at import time); each use gets a fresh capture object"""
+    if _STATE['installed']:
+        return
+    import nestle
+    _STATE['nestle_sample_real'] = nestle.sample
+
+    def nestle_sample(loglikelihood, prior_transform, ndim, **kw):
+        cap = _STATE['cap']
+        if cap is None:
+            return _STATE['nestle_sample_real'](loglikelihood, prior_transform, ndim, **kw)
+        cap.loglike, cap.prior, cap.ndim, cap.kwargs = loglikelihood, prior_transform, ndim, kw
+        return _finish('nestle')
+    _STATE['nestle_sample_double'] = nestle_sample
+
+    pm = types.ModuleType('pymultinest')
+
+    def run(LogLikelihood=None, Prior=None, n_dims=None, **kw):
+        cap = _STATE['cap']
+        cap.loglike, cap.prior, cap.ndim, cap.kwargs = LogLikelihood, Prior, n_dims, kw
+        return _finish('multinest')
+    pm.run = run
+    pm.Analyzer = None
+
+    pc = types.ModuleType('pypolychord')
+    pcs = types.ModuleType('pypolychord.settings')
+    pcp = types.ModuleType('pypolychord.priors')
+
+    class PolyChordSettings:
+        def __init__(self, ndim, nderived):
+            self.nDims, self.nDerived = ndim, nderived
+    pcs.PolyChordSettings = PolyChordSettings
+
+    class UniformPrior:
+        def __init__(self, a, b):
+            self.a, self.b = a, b
+
+        def __call__(self, x):
+            return self.a + (self.b - self.a) * x
+    pcp.UniformPrior = UniformPrior
+
+    def run_polychord(loglikelihood, nDims, nDerived, settings, prior=None, dumper=None):
+        cap = _STATE['cap']
+        cap.loglike, cap.prior, cap.ndim = loglikelihood, prior, nDims
+        cap.kwargs = {'settings': settings, 'nDerived': nDerived}
+        return _finish('polychord')
+    pc.run_polychord = run_polychord
+    pc.settings = pcs
+    pc.priors = pcp
+    _STATE['modules'] = {'pymultinest': pm, 'pypolychord': pc, 'pypolychord.settings': pcs, 'pypolychord.priors': pcp}
+    _STATE['installed'] = True
+
+
+@contextlib.contextmanager
+def sampler_doubles(result=None):
+    """Activate recording doubles for nestle.sample, pymultinest and pypolychord.
+    With result=None the doubles raise Captured after recording the callbacks;
+    otherwise `result(which, capture)` is called and its return value returned
+    (used by C09 to deliver generated samples)."""
+    import nestle
+    _install_once()
+    cap = SamplerCapture()
+    _STATE['cap'], _STATE['result'] = cap, result
+    nestle.sample = _STATE['nestle_sample_double']
+    sys.modules.update(_STATE['modules'])
+    try:
+        yield cap, _STATE['modules']['pymultinest']
+    finally:
+        _STATE['cap'], _STATE['result'] = None, None
+        nestle.sample = _STATE['nestle_sample_real']
